@@ -183,6 +183,18 @@ func c03Oracle(w *World, sig map[string]string, shape hookShape, declared []*Res
 					continue // rolling updates mix several answers; creations are judged for single-answer syncs
 				}
 				for _, q := range sy.Reqs {
+					// a namespaced parent's children are created in its namespace: judged on the
+					// request as sent, whatever the server makes of it
+					if q.Arrival > h.Arrival && q.Verb == "create" && q.Res != nil && q.Res.Namespaced && pns != "" && q.NS != pns && q.Fault != "cancelled" {
+						for _, r := range declared {
+							if r == q.Res {
+								if v := report(&Violation{Prop: shape.Prop, Class: "create-sent-outside-parent-namespace", Sig: sig, Step: q.Step,
+									Detail: fmt.Sprintf("%s: %s sent for a child of a parent in namespace %q", where, q.Short(), pns)}); v != nil {
+									return v
+								}
+							}
+						}
+					}
 					if q.Arrival > h.Arrival && q.Pre == nil && q.Post != nil && accepted(q) && q.Res != nil {
 						isDeclared := false
 						for _, r := range declared {
@@ -222,7 +234,7 @@ func desiredIDs(m map[childID]Object) []string {
 func C03Scenario() *Scenario {
 	return &Scenario{Prop: "C03", Init: func(w *World) {
 		t := w.T
-		s := NewCompositeSetup(w, GenOpts{AllowCluster: true, AllowSSA: false, MaxWorkers: 2, MaxParents: 2, LookAlikes: true, AvoidKnown: true, ExpressionSel: true,
+		s := NewCompositeSetup(w, GenOpts{PlainOwner: true, AllowCluster: true, AllowSSA: false, MaxWorkers: 2, MaxParents: 2, LookAlikes: true, AvoidKnown: true, ExpressionSel: true,
 			Kinds: []*Resource{ResWidget, ResConfigMap, ResGadget}})
 		// objects of an undeclared kind, owned by the parent
 		for _, p := range s.Parents {
